@@ -15,6 +15,9 @@
 -/
 import PydapModel.Subset
 import Proofs.Subset
+import Proofs.EndToEnd
+import Proofs.EndToEndGrid
+import Proofs.EndToEndText
 import Props.C03
 namespace Pydap.C02
 open Pydap
@@ -242,5 +245,244 @@ example : sel 2 ⟨some 1, some 3, some 3⟩ = sel 2 ⟨some 1, none, some 3⟩ 
   C02_stop_beyond_extent 2 _ 3 rfl (by decide)
 example : ValidIdx (sel 2 PSlice.all).length (Idx.sl ⟨some 1, none, some 3⟩) := by
   refine ⟨by simp, by simp, by simp, by decide⟩
+
+/-! ### end to end on values: request ∘ server slicing ∘ XDR encode ∘ XDR decode = numpy indexing
+
+  `E2E.fetchArray ty shape vals pre idx` (PydapModel/EndToEnd.lean) composes the models that were separate:
+  `remoteIndex` above (client request, hyperslab text, server parse, per-axis positions), the server's
+  `target.data = target[slice_]` on the *values* (`E2E.gather`, row-major), `Xdr.encImpl` (responses/dods.py)
+  and `Xdr.decImpl` (the client's `unpack_dap2_data`).  `E2E.numpyIndex shape vals P E` is numpy's
+  `source[P][E]` with integer axes kept: per-axis positions as in `specList`, values by the product
+  semantics `E2E.npTake` — this is where "numpy's N-d basic indexing is the product of the per-axis
+  selections" is a *definition* (`Proofs/EndToEnd.lean`: `gather_spec` proves the row-major gather equal
+  to it pointwise); numpy itself is compared with it in the check (`e2e-array`). -/
+
+/-- **(A) array, no Ellipsis** (short tuples included), any DAP2 type, rank, extents, values, URL
+    pre-constraint with any strides: the client decodes exactly numpy's `source[pre][idx]` — shape
+    (integer axes kept with length 1) and values — and consumes the whole response. -/
+theorem C02_e2e_array (ty : Xdr.Ty) (shape : List Nat) (vals : List Xdr.Val) (pre : List PSlice) (idx : List Idx)
+    (hw : E2E.WFArr ty shape vals) (hpl : pre.length ≤ shape.length) (h : NoEll idx)
+    (hl : idx.length ≤ shape.length)
+    (hv : ValidList shape (padPre pre shape.length) (npExpand idx none shape.length)) :
+    ∃ cshape vs,
+      E2E.numpyIndex shape vals (padPre pre shape.length) (npExpand idx none shape.length) = some (cshape, vs) ∧
+      E2E.fetchArray ty shape vals pre idx = .ok (E2E.dataOf cshape vs, []) :=
+  E2E.fetchArray_spec ty shape vals pre idx _ hw hpl
+    (fun cshape hc => by rw [fixSlice_noEll idx cshape h (by omega), hc]) hv
+
+/-- **(A) with one Ellipsis anywhere in the index** -/
+theorem C02_e2e_array_ellipsis (ty : Xdr.Ty) (shape : List Nat) (vals : List Xdr.Val) (pre : List PSlice)
+    (a b : List Idx) (hw : E2E.WFArr ty shape vals) (hpl : pre.length ≤ shape.length)
+    (ha : NoEll a) (hb : NoEll b) (hl : a.length + b.length ≤ shape.length)
+    (hv : ValidList shape (padPre pre shape.length) (npExpand a (some b) shape.length)) :
+    ∃ cshape vs,
+      E2E.numpyIndex shape vals (padPre pre shape.length) (npExpand a (some b) shape.length) = some (cshape, vs) ∧
+      E2E.fetchArray ty shape vals pre (a ++ Idx.ell :: b) = .ok (E2E.dataOf cshape vs, []) :=
+  E2E.fetchArray_spec ty shape vals pre _ _ hw hpl
+    (fun cshape hc => by rw [fixSlice_ell a b cshape ha hb (by omega), hc]) hv
+
+/-- **the row-major gather is numpy's N-d basic indexing** (the bridge from C02's per-axis position
+    lists to values): for one position list per axis, all inside the source, the gathered list is —
+    in row-major order of the result, of length `∏ |S_k|` — `source[S₀[j₀], …, S_{r-1}[j_{r-1}]]`. -/
+theorem C02_e2e_gather_is_numpy {α : Type} (shape : List Nat) (S : List (List Nat)) (vals : List α)
+    (hr : E2E.InRange shape S) (hl : vals.length = Xdr.prod shape) :
+    (E2E.gather shape S vals).map some = (E2E.cart S).map (fun ix => vals[E2E.ravel shape ix]?) ∧
+    (E2E.gather shape S vals).length = Xdr.prod (selShape S) ∧
+    (E2E.cart S).length = Xdr.prod (selShape S) :=
+  ⟨E2E.gather_spec shape S vals hr hl, E2E.gather_length shape S vals hr hl, E2E.cart_length S⟩
+
+/-! ### (C) grids on values: `grid[key]` is one fetch per indexed child (`E2E.fetchGrid`)
+
+  The source grid: array of type `ty`, shape `shape`, values `vals`; map `j` of type `(maps[j]).1` with the
+  `shape[j]` values `(maps[j]).2`.  Opened with the URL pre-constraint `pre` (map `j` stores `pre[j]`). -/
+
+/-- `output_grid = False`: one request, the array, and its value is numpy's (by (A)) -/
+theorem C02_e2e_grid_array_only (ty : Xdr.Ty) (shape : List Nat) (vals : List Xdr.Val)
+    (maps : List (Xdr.Ty × List Xdr.Val)) (pre : List PSlice) (key : List Idx)
+    (hw : E2E.WFArr ty shape vals) (hpl : pre.length ≤ shape.length) (h : NoEll key)
+    (hl : key.length ≤ shape.length)
+    (hv : ValidList shape (padPre pre shape.length) (npExpand key none shape.length)) :
+    ∃ cshape vs,
+      E2E.numpyIndex shape vals (padPre pre shape.length) (npExpand key none shape.length) = some (cshape, vs) ∧
+      E2E.fetchGrid false ty shape vals maps pre key = [(0, .ok (E2E.dataOf cshape vs, []))] := by
+  obtain ⟨cs, vs, h1, h2⟩ := C02_e2e_array ty shape vals pre key hw hpl h hl hv
+  exact ⟨cs, vs, h1, by rw [E2E.fetchGrid_off, h2]⟩
+
+/-- **(C) grid, `output_grid` on, key without Ellipsis**: `key.length + 1` children are fetched; the
+    array's value is numpy's `array[pre][key]`, and for every `j` below the key's length map `j`'s value is
+    numpy's `map_j[pre_j][key_j]` (integer entries keep the axis); the remaining maps stay lazy. -/
+theorem C02_e2e_grid (ty : Xdr.Ty) (shape : List Nat) (vals : List Xdr.Val)
+    (maps : List (Xdr.Ty × List Xdr.Val)) (pre : List PSlice) (key : List Idx)
+    (hw : E2E.WFArr ty shape vals) (hm : maps.length = shape.length)
+    (hwm : ∀ j (h1 : j < maps.length) (h2 : j < shape.length), E2E.WFArr maps[j].1 [shape[j]] maps[j].2)
+    (hpl : pre.length ≤ shape.length) (h : NoEll key) (hl : key.length ≤ shape.length)
+    (hv : ValidList shape (padPre pre shape.length) (npExpand key none shape.length)) :
+    (E2E.fetchGrid true ty shape vals maps pre key).length = key.length + 1 ∧
+    (∃ cshape vs,
+      E2E.numpyIndex shape vals (padPre pre shape.length) (npExpand key none shape.length) = some (cshape, vs) ∧
+      (E2E.fetchGrid true ty shape vals maps pre key)[0]? = some (0, .ok (E2E.dataOf cshape vs, []))) ∧
+    ∀ j (hj : j < key.length), ∃ cs vs,
+      E2E.numpyIndex [shape[j]'(by omega)] (maps[j]'(by omega)).2
+        [(padPre pre shape.length)[j]'(by rw [padPre_length pre _ hpl]; omega)] [key[j]] = some (cs, vs) ∧
+      (E2E.fetchGrid true ty shape vals maps pre key)[j + 1]? = some (j + 1, .ok (E2E.dataOf cs vs, [])) := by
+  obtain ⟨hlen, _, hmaps⟩ := C02_grid_maps shape (padPre pre shape.length) key h hl hv
+  refine ⟨by simpa [E2E.fetchGrid] using hlen, ?_, ?_⟩
+  · obtain ⟨cs, vs, h1, h2⟩ := C02_e2e_array ty shape vals pre key hw hpl h hl hv
+    exact ⟨cs, vs, h1, by rw [E2E.fetchGrid_array, h2]⟩
+  · intro j hj
+    have hjs : j < shape.length := by omega
+    have hE : (npExpand key none shape.length)[j]'(by rw [(validList_length hv).2]; exact hjs) = key[j] := by
+      simp [npExpand, List.getElem_append_left, hj]
+    have hvj := E2E.validList_getElem shape _ _ hv j hjs (by rw [(validList_length hv).1]; exact hjs)
+      (by rw [(validList_length hv).2]; exact hjs)
+    rw [hE] at hvj
+    exact E2E.fetchGrid_map true ty shape vals maps pre key j key[j] hjs (by omega) hpl
+      (hwm j (by omega) hjs) (h _ (List.getElem_mem hj)) (hmaps j hj).1 hvj.1 hvj.2
+
+/-- **(C) grid, `output_grid` on, key with an Ellipsis** (after the repair of `GridType.__getitem__`): the
+    array and *every* map are fetched; map `j`'s value is numpy's `map_j[pre_j][E_j]`, `E` being numpy's
+    expansion of the key. -/
+theorem C02_e2e_grid_ellipsis (ty : Xdr.Ty) (shape : List Nat) (vals : List Xdr.Val)
+    (maps : List (Xdr.Ty × List Xdr.Val)) (pre : List PSlice) (a b : List Idx)
+    (hw : E2E.WFArr ty shape vals) (hm : maps.length = shape.length)
+    (hwm : ∀ j (h1 : j < maps.length) (h2 : j < shape.length), E2E.WFArr maps[j].1 [shape[j]] maps[j].2)
+    (hpl : pre.length ≤ shape.length) (ha : NoEll a) (hb : NoEll b) (hl : a.length + b.length ≤ shape.length)
+    (hv : ValidList shape (padPre pre shape.length) (npExpand a (some b) shape.length)) :
+    (∃ cshape vs,
+      E2E.numpyIndex shape vals (padPre pre shape.length) (npExpand a (some b) shape.length) = some (cshape, vs) ∧
+      (E2E.fetchGrid true ty shape vals maps pre (a ++ Idx.ell :: b))[0]? = some (0, .ok (E2E.dataOf cshape vs, []))) ∧
+    ∀ j (hj : j < shape.length), ∃ cs vs,
+      E2E.numpyIndex [shape[j]] (maps[j]'(by omega)).2
+        [(padPre pre shape.length)[j]'(by rw [padPre_length pre _ hpl]; exact hj)]
+        [(npExpand a (some b) shape.length)[j]'(by rw [(validList_length hv).2]; exact hj)] = some (cs, vs) ∧
+      (E2E.fetchGrid true ty shape vals maps pre (a ++ Idx.ell :: b))[j + 1]?
+        = some (j + 1, .ok (E2E.dataOf cs vs, [])) := by
+  obtain ⟨_, hmaps⟩ := C02_grid_maps_ellipsis shape (padPre pre shape.length) a b ha hb hl hv
+  refine ⟨?_, ?_⟩
+  · obtain ⟨cs, vs, h1, h2⟩ := C02_e2e_array_ellipsis ty shape vals pre a b hw hpl ha hb hl hv
+    exact ⟨cs, vs, h1, by rw [E2E.fetchGrid_array, h2]⟩
+  · intro j hj
+    have hvj := E2E.validList_getElem shape _ _ hv j hj (by rw [(validList_length hv).1]; exact hj)
+      (by rw [(validList_length hv).2]; exact hj)
+    have hne : (npExpand a (some b) shape.length)[j]'(by rw [(validList_length hv).2]; exact hj) ≠ Idx.ell := by
+      intro he; rw [he] at hvj; exact hvj.2
+    exact E2E.fetchGrid_map true ty shape vals maps pre _ j _ hj (by omega) hpl
+      (hwm j (by omega) hj) hne (hmaps j hj).1 hvj.1 hvj.2
+
+/-! ### (B) the same through the response text
+
+  `E2E.fetchArrayText` additionally runs the server's DDS printer (`Dds.printDs`, C07) on the constrained
+  variable, concatenates `dds ‖ "Data:\n" ‖ xdr` (`Xdr.body`, C05), and on the client side
+  `safe_dds_and_data`'s split (`Xdr.splitBody`), the DDS parser (`Dds.parseDds`, on the text *without* its final
+  newline, as the client receives it), the conversion of the parsed declaration to the decoder's declaration
+  (`E2E.tmplOfDataset`) and `Xdr.decImpl`.  That the printed DDS is ASCII and that `\nData:\n` cannot start inside
+  it (`E2E.TextOk`) is *proved* from the names being in C07's domain (`C02_e2e_text_ok`), not assumed. -/
+
+/-- the DDS the server prints for the constrained variable is ASCII and none of its newlines is followed by `D`
+    (so `safe_dds_and_data` splits at the right place and the ASCII decode is lossless), for every DAP2 type, shape
+    and names in C07's domain -/
+theorem C02_e2e_text_ok (dsName name : Dds.Text) (dims : List Dds.Text) (ty : Xdr.Ty) (cshape : List Nat)
+    (hds : Dds.NameOk dsName) (hn : Dds.NameOk name) (hdn : ∀ x ∈ dims, Dds.NameOk x) :
+    E2E.TextOk (E2E.answerDs dsName name dims ty cshape) :=
+  E2E.textOk_answerDs dsName name dims ty cshape hds hn hdn
+
+/-- **(B) array through the response text, no Ellipsis**: the values decoded are numpy's `source[pre][idx]`, and
+    the declaration the client holds is the printed one: dataset and variable name, parser dtype of `ty`, the
+    constrained shape, the dimension names. -/
+theorem C02_e2e_array_text (dsName name : Dds.Text) (dims : List Dds.Text) (ty : Xdr.Ty) (shape : List Nat)
+    (vals : List Xdr.Val) (pre : List PSlice) (idx : List Idx)
+    (hw : E2E.WFArr ty shape vals) (hpl : pre.length ≤ shape.length) (h : NoEll idx)
+    (hl : idx.length ≤ shape.length)
+    (hv : ValidList shape (padPre pre shape.length) (npExpand idx none shape.length))
+    (hds : Dds.NameOk dsName) (hn : Dds.NameOk name) (hdn : ∀ x ∈ dims, Dds.NameOk x)
+    (hd : dims = [] ∨ dims.length = shape.length) :
+    ∃ cshape vs,
+      E2E.numpyIndex shape vals (padPre pre shape.length) (npExpand idx none shape.length) = some (cshape, vs) ∧
+      E2E.fetchArrayText dsName name dims ty shape vals pre idx
+        = .ok (Dds.normDs (E2E.answerDs dsName name dims ty cshape), .tuple [E2E.dataOf cshape vs], []) :=
+  E2E.fetchArrayText_spec dsName name dims ty shape vals pre idx _ hw hpl
+    (fun cshape hc => by rw [fixSlice_noEll idx cshape h (by omega), hc]) hv hds hn hdn hd
+
+theorem C02_e2e_array_text_ellipsis (dsName name : Dds.Text) (dims : List Dds.Text) (ty : Xdr.Ty) (shape : List Nat)
+    (vals : List Xdr.Val) (pre : List PSlice) (a b : List Idx)
+    (hw : E2E.WFArr ty shape vals) (hpl : pre.length ≤ shape.length)
+    (ha : NoEll a) (hb : NoEll b) (hl : a.length + b.length ≤ shape.length)
+    (hv : ValidList shape (padPre pre shape.length) (npExpand a (some b) shape.length))
+    (hds : Dds.NameOk dsName) (hn : Dds.NameOk name) (hdn : ∀ x ∈ dims, Dds.NameOk x)
+    (hd : dims = [] ∨ dims.length = shape.length) :
+    ∃ cshape vs,
+      E2E.numpyIndex shape vals (padPre pre shape.length) (npExpand a (some b) shape.length) = some (cshape, vs) ∧
+      E2E.fetchArrayText dsName name dims ty shape vals pre (a ++ Idx.ell :: b)
+        = .ok (Dds.normDs (E2E.answerDs dsName name dims ty cshape), .tuple [E2E.dataOf cshape vs], []) :=
+  E2E.fetchArrayText_spec dsName name dims ty shape vals pre _ _ hw hpl
+    (fun cshape hc => by rw [fixSlice_ell a b cshape ha hb (by omega), hc]) hv hds hn hdn hd
+
+def exVals : List Xdr.Val := [.num 10, .num 11, .num 12, .num 13, .num 14, .num 15, .num 16, .num 17, .num 18, .num 19]
+
+/-- Int16 source `[10,11,…,19]`, `a[0:2:9]` in the URL, then `[1:3]`: numpy gives shape `(2,)`, values 12, 14 -/
+example : E2E.numpyIndex [10] exVals
+    (padPre [⟨some 0, some 10, some 2⟩] 1) (npExpand [Idx.sl ⟨some 1, some 3, none⟩] none 1)
+    = some ([2], [.num 12, .num 14]) := by decide
+example : E2E.fetchArray .int16 [10] exVals
+    [⟨some 0, some 10, some 2⟩] [Idx.sl ⟨some 1, some 3, none⟩] = .ok (.array [.num 12, .num 14], []) := by
+  obtain ⟨cs, vs, h1, h2⟩ := C02_e2e_array .int16 [10] exVals
+    [⟨some 0, some 10, some 2⟩] [Idx.sl ⟨some 1, some 3, none⟩]
+    ⟨by decide, by decide, by decide⟩ (by decide) (by intro x hx; simp at hx; subst hx; simp) (by decide)
+    (by refine ⟨⟨by simp, by simp, by simp⟩, ⟨by simp, by simp, by simp, by decide⟩, trivial⟩)
+  have : E2E.numpyIndex [10] exVals
+    (padPre [⟨some 0, some 10, some 2⟩] 1) (npExpand [Idx.sl ⟨some 1, some 3, none⟩] none 1)
+    = some ([2], [.num 12, .num 14]) := by decide
+  rw [show [10].length = 1 from rfl, this] at h1
+  cases h1
+  exact h2
+/-- rank 2, strings, an integer and an Ellipsis: `x[..., -1]` on a 2×3 array of strings keeps the axis -/
+example : E2E.numpyIndex [2, 3] ([[97], [98], [99], [100], [101], []].map Xdr.Val.str)
+    (padPre [] 2) (npExpand [] (some [Idx.int (-1)]) 2) = some ([2, 1], [.str [99], .str []]) := by decide
+example : E2E.WFArr .string [2, 3] ([[97], [98], [99], [100], [101], []].map Xdr.Val.str) :=
+  ⟨by decide, by decide, by decide⟩
+example : E2E.InRange [2, 3] [[1], [0, 2]] ∧ E2E.gather [2, 3] [[1], [0, 2]] [0, 1, 2, 3, 4, 5] = [3, 5] :=
+  ⟨by simp [E2E.InRange], by decide⟩
+
+/-- a 2×3 Int32 grid with a Float64 and a String map, `g[1]`: two children are fetched (array, first map), the
+    second map stays lazy; hypotheses of `C02_e2e_grid` hold for it -/
+def exGridVals : List Xdr.Val := [.num 0, .num 1, .num 2, .num 3, .num 4, .num (-5)]
+def exGridMaps : List (Xdr.Ty × List Xdr.Val) :=
+  [(.float64, [.num 4607182418800017408, .num 0]), (.string, [.str [97], .str [], .str [98, 99]])]
+example : (E2E.fetchGrid true .int32 [2, 3] exGridVals exGridMaps [] [Idx.int 1]).length = 2 ∧
+    (E2E.fetchGrid true .int32 [2, 3] exGridVals exGridMaps [] [Idx.int 1])[1]? = some (1, .ok (.array [.num 0], [])) := by
+  have hwm : ∀ j (h1 : j < exGridMaps.length) (h2 : j < [2, 3].length),
+      E2E.WFArr exGridMaps[j].1 [[2, 3][j]] exGridMaps[j].2 := by
+    intro j h1 h2
+    match j, h1 with
+    | 0, _ => exact (show E2E.WFArr .float64 [2] [.num 4607182418800017408, .num 0] from ⟨by decide, by decide, by decide⟩)
+    | 1, _ => exact (show E2E.WFArr .string [3] [.str [97], .str [], .str [98, 99]] from ⟨by decide, by decide, by decide⟩)
+  have hv : ValidList [2, 3] (padPre [] 2) (npExpand [Idx.int 1] none 2) :=
+    ⟨nonNeg_all, ⟨by decide, by decide⟩, nonNeg_all,
+      ⟨by simp [PSlice.all], by simp [PSlice.all], by simp [PSlice.all], by decide⟩, trivial⟩
+  obtain ⟨hlen, _, hm⟩ := C02_e2e_grid .int32 [2, 3] exGridVals exGridMaps [] [Idx.int 1]
+    ⟨by decide, by decide, by decide⟩ rfl hwm (by decide) (by intro x hx; simp at hx; subst hx; simp) (by decide) hv
+  obtain ⟨cs, vs, h1, h2⟩ := hm 0 (by decide)
+  have : E2E.numpyIndex [2] [Xdr.Val.num 4607182418800017408, .num 0] [PSlice.all] [Idx.int 1]
+      = some ([1], [.num 0]) := by decide
+  rw [show E2E.numpyIndex [[2, 3][0]] (exGridMaps[0]).2 [(padPre [] [2, 3].length)[0]] [[Idx.int 1][0]]
+      = E2E.numpyIndex [2] [Xdr.Val.num 4607182418800017408, .num 0] [PSlice.all] [Idx.int 1] from rfl, this] at h1
+  cases h1
+  exact ⟨hlen, h2⟩
+
+/-- `TextOk` on a concrete text, by computation: `Dataset {\n    Int16 a[m0 = 2];\n} ds;` and the names are in C07's domain -/
+example : E2E.TextOk (E2E.answerDs "ds".toList "a".toList ["m0".toList] .int16 [2]) := by
+  intro s0 h
+  have hp : Dds.printDs (E2E.answerDs "ds".toList "a".toList ["m0".toList] .int16 [2])
+      = .ok ("Dataset {\n    Int16 a[m0 = 2];\n} ds;".toList ++ ['\n']) := by
+    have l1 : Dds.lookup Gen.NUMPY_TO_DAP2_TYPEMAP (Dds.dtypeChar ['h']) = some "Int16".toList := by decide
+    have i2 : intText 2 = ['2'] := by simp [intText, natDigits, digitChar]
+    simp [E2E.answerDs, E2E.ddsBase, E2E.npChar, Dds.printDs, Dds.printL, Dds.printT, Dds.printBase, l1,
+      Dds.shapeText, Dds.dimText, Dds.indent, Dds.closeText, i2]
+  rw [hp] at h
+  have := List.append_cancel_right (Except.ok.inj h)
+  subst this
+  exact ⟨by decide, by decide⟩
+example : Dds.NameOk "ds".toList ∧ Dds.NameOk "a".toList ∧ Dds.NameOk "m0".toList :=
+  ⟨⟨by decide, by decide⟩, ⟨by decide, by decide⟩, ⟨by decide, by decide⟩⟩
 
 end Pydap.C02
